@@ -30,8 +30,10 @@ func hSil11(val string, now time.Time) *pb.Silence {
 // data (possibly ending in a torn record) and an unsynced rename may be lost. The next
 // start loads without error exactly the previous snapshot's silences or exactly the
 // new ones, never a mixture, and the temporary file never has the snapshot's name.
+// The thorough tier runs two such rounds back to back (crash, restart, crash again).
 //
-//vf:bounds unwind=24 decisions=300 preempt=0
+//vf:quick unwind=24 decisions=300 preempt=0
+//vf:thorough unwind=24 decisions=600 preempt=0 paths=2000000
 //vf:nonative uses the engine's crash-consistent file-system model
 //vf:expect reach=old-state reach=new-state reach=crashed reach=completed
 func VerifC11_SilenceCrash() {
@@ -49,66 +51,74 @@ func VerifC11_SilenceCrash() {
 	vfAssert("snapshot-ok", err == nil)
 	vfFSPut("data/silences", buf.Bytes())
 
-	// the running instance: loaded from it, then silence B is created (optionally A expired)
-	s, err := hNew11("data/silences")
-	vfAssert("start-from-own-snapshot", err == nil && len(s.st) == 1)
-	vfAdvance(time.Minute)
-	b := hSil11("b", vfNow())
-	vfAssert("set-ok", s.Set(ctx, b) == nil)
-	expireA := vfBool("expireA")
-	if expireA {
-		vfAssert("expire-ok", s.Expire(ctx, a.Id) == nil)
-	}
-
-	// one maintenance run (the shutdown snapshot), killed before its k-th FS operation
-	k := vfChoice("crashBeforeOp", 8) // 7 = runs to completion
-	if k < 7 {
-		vfCrashAt(k)
-	}
-	func() {
-		defer func() { recover() }()
-		stopc := make(chan struct{})
-		close(stopc)
-		s.Maintenance(time.Hour, "data/silences", stopc, nil)
-	}()
-	crashed := vfCrashed()
-	if crashed {
-		vfReach("crashed")
-	} else {
-		vfReach("completed")
-		// the process finished; the machine may still lose power right afterwards
-		if vfBool("powerLossAfterwards") {
-			vfPowerLoss()
-			crashed = true
-		}
-	}
-	vfCrashRecover()
-
-	// restart
-	s2, err := hNew11("data/silences")
-	vfAssert("restart-never-refused-by-own-file", err == nil)
-	_, hasA := s2.st[a.Id]
-	_, hasB := s2.st[b.Id]
-	isOld := hasA && !hasB && len(s2.st) == 1
-	isNew := hasA && hasB && len(s2.st) == 2
-	vfAssert("exactly-old-or-exactly-new-state", isOld || isNew)
-	if !crashed {
-		vfAssert("completed-snapshot-is-loaded", isNew)
-	}
-	if isNew {
-		vfReach("new-state")
-		gotA := s2.st[a.Id].Silence
+	// 1 (quick) / 2 (thorough) rounds: the running instance was loaded from the file,
+	// one more silence is created (optionally the oldest expired), one maintenance run
+	// (the shutdown snapshot) is killed before its k-th file-system operation or runs to
+	// completion, the machine possibly loses power, the instance restarts. A second
+	// round starts from whatever the first left behind (stale temporary file included).
+	old := map[string]bool{a.Id: true}
+	expired := map[string]bool{}
+	for round := 0; round <= vfTier(); round++ {
+		s, err := hNew11("data/silences")
+		vfAssert("start-from-own-snapshot", err == nil && len(s.st) == len(old))
+		vfAdvance(time.Minute)
+		b := hSil11([]string{"b", "c"}[round], vfNow())
+		vfAssert("set-ok", s.Set(ctx, b) == nil)
+		expireA := vfBool("expireA")
 		if expireA {
-			vfAssert("new-state-content", !gotA.EndsAt.AsTime().Equal(a.EndsAt.AsTime()))
-		} else {
-			vfAssert("new-state-content", gotA.EndsAt.AsTime().Equal(a.EndsAt.AsTime()))
+			vfAssert("expire-ok", s.Expire(ctx, a.Id) == nil)
 		}
-		vfAssert("indexes-rebuilt", len(s2.mi) == 2 && len(s2.vi) == 2)
-	} else {
-		vfReach("old-state")
-		vfAssert("old-state-content", s2.st[a.Id].Silence.EndsAt.AsTime().Equal(a.EndsAt.AsTime()))
+		k := vfChoice("crashBeforeOp", 8) // 7 = runs to completion
+		if k < 7 {
+			vfCrashAt(k)
+		}
+		func() {
+			defer func() { recover() }()
+			stopc := make(chan struct{})
+			close(stopc)
+			s.Maintenance(time.Hour, "data/silences", stopc, nil)
+		}()
+		crashed := vfCrashed()
+		if crashed {
+			vfReach("crashed")
+		} else {
+			vfReach("completed")
+			// the process finished; the machine may still lose power right afterwards
+			if vfBool("powerLossAfterwards") {
+				vfPowerLoss()
+				crashed = true
+			}
+		}
+		vfCrashRecover()
+
+		// restart
+		s2, err := hNew11("data/silences")
+		vfAssert("restart-never-refused-by-own-file", err == nil)
+		_, hasB := s2.st[b.Id]
+		isOld, isNew := !hasB && len(s2.st) == len(old), hasB && len(s2.st) == len(old)+1
+		for id := range old {
+			_, has := s2.st[id]
+			isOld, isNew = isOld && has, isNew && has
+		}
+		vfAssert("exactly-old-or-exactly-new-state", isOld || isNew)
+		if !crashed {
+			vfAssert("completed-snapshot-is-loaded", isNew)
+		}
+		gotA := s2.st[a.Id].Silence
+		if isNew {
+			vfReach("new-state")
+			if expireA {
+				expired[a.Id] = true
+			}
+			old[b.Id] = true
+			vfAssert("indexes-rebuilt", len(s2.mi) == len(old) && len(s2.vi) == len(old))
+		} else {
+			vfReach("old-state")
+		}
+		// silence A's content is the one of the state that was loaded
+		vfAssert("content-of-the-loaded-state", gotA.EndsAt.AsTime().Equal(a.EndsAt.AsTime()) == !expired[a.Id])
+		vfAssert("target-always-present", vfFSExists("data/silences"))
 	}
-	vfAssert("target-always-present", vfFSExists("data/silences"))
 }
 
 // VerifC11_SilenceRoundTrip: writing a snapshot and loading it back reproduces every
